@@ -112,8 +112,8 @@ def dial_events(ctx, rng):
                     addr = addrs.index(evs[conn[0]]["host"]) + 1 if conn else 0
                     tried.append({"addr": addr,
                                   "timeoutSet": any(e["ev"] == "tsettimeout" and e["value"] == want_t for e in before),
-                                  "defaults": opts[:len(dflt)] == dflt,
-                                  "user": all(tuple(int(x) for x in u) in opts[len(dflt):] for u in useropts),
+                                  "defaults": all(o in opts for o in dflt),
+                                  "user": all(tuple(int(x) for x in u) in opts for u in useropts),
                                   "closed": s.closed})
                 if exc is None:
                     result = {"kind": "ok", "idx": (w.sockets.index(ws.sock) + 1) if ws.sock in w.sockets else 0}
